@@ -4,3 +4,7 @@ import dyncheck
 CHECKS = {}
 for _p in dyncheck.PLANS:
     CHECKS[_p] = dyncheck.run
+import buildcheck
+
+for _p in buildcheck.PLANS:
+    CHECKS[_p] = buildcheck.run
